@@ -219,6 +219,25 @@ pub fn gen_case(args: &Args, rng: &mut Rng, finite_inputs: bool) -> Case {
     Case { src, n, input_seed: rng.next(), finite_inputs, prog: Some(prog), expect: None, scheduler: false, path: None, origin: None, split: None }
 }
 
+/// The enumerated family "every state word is audible" (gens::layoutfam) as cases.
+pub fn family_cases() -> Vec<Case> {
+    crate::gens::layoutfam::family()
+        .into_iter()
+        .map(|(tag, prog)| Case {
+            src: prog.print(),
+            n: 12,
+            input_seed: 1,
+            finite_inputs: true,
+            prog: Some(prog),
+            expect: None,
+            scheduler: false,
+            path: None,
+            origin: Some(format!("family:state-words-audible/{tag}")),
+            split: None,
+        })
+        .collect()
+}
+
 /// strip identifiers / numbers from a diagnostic so signatures are stable
 pub fn norm(s: &str) -> String {
     let mut o = String::new();
